@@ -114,8 +114,15 @@ func runParent(in io.Reader, out io.Writer) {
 	w := startWorker()
 	defer func() { w.in.Close(); w.kill() }()
 	var history []string
+	hangs := 0
 	for sc.Scan() {
 		line := sc.Text()
+		if hangs >= 3 {
+			// three operations of this run did not return: report the rest as skipped instead of
+			// spending the watchdog on each of them (the caller cuts the run at the first `skip`)
+			bw.WriteString("skip\n")
+			continue
+		}
 		if strings.HasPrefix(line, "RESET") {
 			history = history[:0]
 		}
@@ -128,6 +135,7 @@ func runParent(in io.Reader, out io.Writer) {
 				tag = strings.ToLower(toks[0])
 			}
 			res = tag + " hang"
+			hangs++
 			w = startWorker()
 			for _, h := range history {
 				if _, ok := w.do(h, timeout); !ok {
